@@ -35,6 +35,7 @@ func (p *partDisk) Writer() io.WriteSeeker {
 func (p *partDisk) Reader() (io.ReadCloser, error) {
 	// read from RAM if possible
 	if p.buffer != nil {
+		verifYield("partDisk.Reader")
 		return io.NopCloser(bytes.NewReader(p.buffer.Bytes())), nil
 	}
 
